@@ -21,37 +21,54 @@ def isCmdOp (ty : Nat) : Bool :=
   ty == mds_PEG || ty == mds_MTAB
 
 /-- the linear fragment: rests, ties, notes of 1..65535 ticks, slur, commands with one or two
-argument bytes (`FLG` only with an argument that leaves drum mode off) -/
+argument bytes, and the rest / tie of length 0 and the `CARRY` event (which `convert_track` drops
+without a trace) -/
 def linEv (ev : MEv) : Bool :=
   (ev.type == mds_REST && decide (1 ≤ ev.arg) && decide (ev.arg ≤ 65535)) ||
   (decide (mds_TIE ≤ ev.type) && decide (ev.type < mds_SLR) && decide (1 ≤ ev.arg) && decide (ev.arg ≤ 65535)) ||
   ev.type == mds_SLR ||
-  (isCmdOp ev.type && (ev.type != mds_FLG || drumSafe (ev.arg % 256)))
+  isCmdOp ev.type ||
+  ((ev.type == mds_REST || ev.type == mds_TIE || ev.type == mds_CARRY) && ev.arg == 0)
+
+/-- the event can be played in mode `M` without changing it: a note byte sounds (drum flag off), is a
+tie, or names a known routine (drum flag on); a `FLG` command leaves the drum flag as it is -/
+def Mode.evOk (M : Mode) (ev : MEv) : Bool :=
+  (!(decide (mds_TIE ≤ ev.type) && decide (ev.type < mds_SLR) && decide (1 ≤ ev.arg)) || M.okTy ev.type) &&
+  (ev.type != mds_FLG || drumSafe M.dm (ev.arg % 256))
+
+theorem Mode.plain_evOk (ev : MEv) : Mode.plain.evOk ev = (ev.type != mds_FLG || drumSafe false (ev.arg % 256)) := by
+  simp [Mode.evOk]
 
 /-- tick string of one MDSDRV event (control-flow events contribute nothing themselves) -/
-def evTicks (nS nM : Nat) (ev : MEv) : List Tk :=
+def evTicks (M : Mode) (nS nM : Nat) (ev : MEv) : List Tk :=
   if ev.type = mds_REST then List.replicate ev.arg Tk.off
-  else if mds_TIE ≤ ev.type ∧ ev.type < mds_SLR then noteTicks ev.type ev.arg
+  else if mds_TIE ≤ ev.type ∧ ev.type < mds_SLR then M.nt ev.type ev.arg
   else if ev.type = mds_SLR then [Tk.cmd mds_SLR 0]
   else if isCmdOp ev.type then [Tk.cmd ev.type (cmdArg nS nM ev.type ev.arg)]
   else []
 
-def ticks (nS nM : Nat) (es : List MEv) : List Tk := es.flatMap (evTicks nS nM)
+def ticks (M : Mode) (nS nM : Nat) (es : List MEv) : List Tk := es.flatMap (evTicks M nS nM)
 
-theorem ticks_cons (nS nM : Nat) (ev : MEv) (es : List MEv) :
-    ticks nS nM (ev :: es) = evTicks nS nM ev ++ ticks nS nM es := by simp [ticks]
+theorem ticks_cons (M : Mode) (nS nM : Nat) (ev : MEv) (es : List MEv) :
+    ticks M nS nM (ev :: es) = evTicks M nS nM ev ++ ticks M nS nM es := by simp [ticks]
 
-theorem ticks_append (nS nM : Nat) (a b : List MEv) : ticks nS nM (a ++ b) = ticks nS nM a ++ ticks nS nM b := by
+theorem ticks_append (M : Mode) (nS nM : Nat) (a b : List MEv) :
+    ticks M nS nM (a ++ b) = ticks M nS nM a ++ ticks M nS nM b := by
   simp [ticks]
 
 /-! ### `encEv` on the event kinds -/
+
+/-- a rest or tie of length 0 emits nothing and is not remembered -/
+theorem encEv_zero (nS nM : Nat) (e : Enc) {ty : Nat} (h : (ty = mds_REST ∨ ty = mds_TIE) ∨ ty = mds_CARRY) :
+    encEv nS nM e ⟨ty, 0⟩ = .ok e := by
+  rcases h with (rfl | rfl) | rfl <;> rfl
 
 theorem encEv_other {nS nM : Nat} {e e1 : Enc} {ty arg : Nat} (hge : ty ≥ mds_SLR)
     (h : encOther nS nM e ty arg = .ok e1) (hne : ¬ (ty = mds_LPB ∧ e.breaks.head?.getD 0 ≠ 0) := by intro hh; exact absurd hh.1 (by decide)) :
     encEv nS nM e ⟨ty, arg⟩ = .ok { e1 with lastType := ty } := by
   have a1 : ¬ (ty = mds_REST ∧ arg ≠ 0) := by simp [mds_REST, mds_SLR] at *; omega
   have a2 : ¬ (ty < mds_SLR ∧ arg ≠ 0) := by omega
-  have a3 : ty < mds_REST ∨ ty ≥ mds_SLR ∨ arg ≠ 0 := by omega
+  have a3 : (ty < mds_REST ∧ ty ≠ mds_CARRY) ∨ ty ≥ mds_SLR ∨ arg ≠ 0 := by omega
   simp only [encEv, hne, a1, a2, if_false, h, a3, if_true]
 
 theorem encOther_slr (nS nM : Nat) (e : Enc) (arg : Nat) :
@@ -101,36 +118,48 @@ theorem encOther_peg (nS nM : Nat) (e : Enc) (arg : Nat) :
 loop point alone, and — for every byte string extending the new output and every interpreter
 state related to the old encoder state — the interpreter reaches a state related to the new
 encoder state, having produced `T` -/
-def EvOk (nS nM : Nat) (e : Enc) (ev : MEv) (T : List Tk) : Prop :=
+def EvOk (M : Mode) (nS nM : Nat) (e : Enc) (ev : MEv) (T : List Tk) : Prop :=
   ∃ e', encEv nS nM e ev = .ok e' ∧ e.out <+: e'.out ∧ e'.breaks = e.breaks ∧ e'.segnoPos = e.segnoPos ∧
-    ∀ (seq : List Nat) (base mj : Nat) (s : St) (O : List Tk), e'.out <+: seq → Good e s O →
-      ∃ s1, Reach seq base mj s s1 ∧ Frame s s1 ∧ Good e' s1 (T.reverse ++ O)
+    ∀ (seq : List Nat) (base mj : Nat) (s : St) (O : List Tk), M.Sound seq base mj → e'.out <+: seq → Good M e s O →
+      ∃ s1, Reach seq base mj s s1 ∧ Frame s s1 ∧ Good M e' s1 (T.reverse ++ O)
 
-theorem evOk_cmd1 {nS nM : Nat} {e : Enc} {ty arg a : Nat} (hge : ty ≥ mds_SLR)
+theorem evOk_cmd1 {M : Mode} {nS nM : Nat} {e : Enc} {ty arg a : Nat} (hge : ty ≥ mds_SLR)
     (h : encOther nS nM e ty arg = .ok { e with out := e.out ++ [ty, a] })
-    (hop : oneArgOps.contains ty = true) (hf : ty = mds_FLG → drumSafe a = true) :
-    EvOk nS nM e ⟨ty, arg⟩ [Tk.cmd ty a] := by
+    (hop : oneArgOps.contains ty = true) (hf : ty = mds_FLG → drumSafe M.dm a = true) :
+    EvOk M nS nM e ⟨ty, arg⟩ [Tk.cmd ty a] := by
   refine ⟨_, encEv_other hge h (by rintro ⟨h, _⟩; subst h; exact absurd hop (by decide)), List.prefix_append _ _, rfl, rfl, ?_⟩
-  intro seq base mj s O hp g
-  exact cmd1_good g hop hf rfl rfl rfl hge hp
+  intro seq base mj s O hS hp g
+  exact cmd1_good hS g hop hf rfl rfl rfl hge hp
 
-theorem evOk_cmd2 {nS nM : Nat} {e : Enc} {ty arg hi lo : Nat} (hge : ty ≥ mds_SLR)
+theorem evOk_cmd2 {M : Mode} {nS nM : Nat} {e : Enc} {ty arg hi lo : Nat} (hge : ty ≥ mds_SLR)
     (h : encOther nS nM e ty arg = .ok { e with out := e.out ++ [ty, hi, lo] })
     (hop : twoArgOps.contains ty = true) :
-    EvOk nS nM e ⟨ty, arg⟩ [Tk.cmd ty (hi * 256 + lo)] := by
+    EvOk M nS nM e ⟨ty, arg⟩ [Tk.cmd ty (hi * 256 + lo)] := by
   refine ⟨_, encEv_other hge h (by rintro ⟨h, _⟩; subst h; exact absurd hop (by decide)), List.prefix_append _ _, rfl, rfl, ?_⟩
-  intro seq base mj s O hp g
-  exact cmd2_good g hop rfl rfl rfl hge hp
+  intro seq base mj s O hS hp g
+  exact cmd2_good hS g hop rfl rfl rfl hge hp
 
 /-- **one event of the linear fragment** -/
-theorem encEv_lin (nS nM : Nat) (e : Enc) (ev : MEv) (hv : linEv ev = true) :
-    EvOk nS nM e ev (evTicks nS nM ev) := by
+theorem encEv_lin (M : Mode) (nS nM : Nat) (e : Enc) (ev : MEv) (hv : linEv ev = true) (hm : M.evOk ev = true) :
+    EvOk M nS nM e ev (evTicks M nS nM ev) := by
   obtain ⟨ty, arg⟩ := ev
-  simp only [linEv, Bool.or_eq_true, Bool.and_eq_true, beq_iff_eq, decide_eq_true_eq, bne_iff_ne] at hv
-  rcases hv with ((⟨⟨hty, h1⟩, h2⟩ | ⟨⟨⟨h1, h2⟩, h3⟩, h4⟩) | hslr) | ⟨hcmd, hflg⟩
+  simp only [linEv, Bool.or_eq_true, Bool.and_eq_true, beq_iff_eq, decide_eq_true_eq] at hv
+  simp only [Mode.evOk, Bool.and_eq_true, Bool.or_eq_true, Bool.not_eq_true', bne_iff_ne, ne_eq,
+    Bool.and_eq_false_iff, decide_eq_false_iff_not] at hm
+  obtain ⟨hmn, hflg⟩ := hm
+  rcases hv with (((⟨⟨hty, h1⟩, h2⟩ | ⟨⟨⟨h1, h2⟩, h3⟩, h4⟩) | hslr) | hcmd) | ⟨hz, ha⟩
+  rotate_right
+  · -- length 0
+    subst ha
+    have hev : evTicks M nS nM ⟨ty, 0⟩ = [] := by
+      rcases hz with (rfl | rfl) | rfl <;>
+        simp +decide [evTicks, Mode.nt, noteTicks, mds_REST, mds_TIE, mds_SLR, mds_NOTE, mds_CARRY, isCmdOp]
+    rw [hev]
+    exact ⟨e, encEv_zero nS nM e hz, List.prefix_refl _, rfl, rfl,
+      fun _ _ _ s O _ _ g => ⟨s, .refl _, Frame.rfl' _, by simpa using g⟩⟩
   · -- rest
     subst hty
-    have hev : evTicks nS nM ⟨mds_REST, arg⟩ = List.replicate arg Tk.off := by simp [evTicks]
+    have hev : evTicks M nS nM ⟨mds_REST, arg⟩ = List.replicate arg Tk.off := by simp [evTicks]
     rw [hev]
     obtain ⟨e1, he1⟩ := encRest_ok e arg
     obtain ⟨p1, p2, p3⟩ := encRest_frame he1
@@ -139,34 +168,40 @@ theorem encEv_lin (nS nM : Nat) (e : Enc) (ev : MEv) (hv : linEv ev = true) :
       have a9 : ¬ (mds_REST = mds_LPB) := by decide
       simp [encEv, a1, he1, a9]
     refine ⟨_, henc, p1, p2, p3, ?_⟩
-    intro seq base mj s O hp g
-    obtain ⟨s1, r1, f1, i1⟩ := encRest_good (base := base) (mj := mj) g h1 h2 he1 hp
+    intro seq base mj s O hS hp g
+    obtain ⟨s1, r1, f1, i1⟩ := encRest_good (base := base) (mj := mj) hS g h1 h2 he1 hp
     refine ⟨s1, r1, f1, ?_⟩
-    have i2 : Idle { e1 with lastType := mds_REST } s1 (List.replicate arg Tk.off ++ O) := i1.congr rfl rfl rfl
+    have i2 : Idle M { e1 with lastType := mds_REST } s1 (List.replicate arg Tk.off ++ O) := i1.congr rfl rfl rfl
     simpa using i2.good (by simp [needLenB, noteish, mds_REST, mds_TIE])
   · -- note / tie
-    have hev : evTicks nS nM ⟨ty, arg⟩ = noteTicks ty arg := by
+    have hev : evTicks M nS nM ⟨ty, arg⟩ = M.nt ty arg := by
       have : ¬ ty = mds_REST := by simp [mds_REST, mds_TIE] at *; omega
       simp [evTicks, this, h1, h2]
     rw [hev]
     have a1 : ¬ (ty = mds_REST ∧ arg ≠ 0) := by simp [mds_REST, mds_TIE] at *; omega
     have a2 : arg ≠ 0 := by omega
-    have a3 : ty < mds_REST ∨ ty ≥ mds_SLR ∨ arg ≠ 0 := by omega
+    have a3 : (ty < mds_REST ∧ ty ≠ mds_CARRY) ∨ ty ≥ mds_SLR ∨ arg ≠ 0 := by omega
     have henc : encEv nS nM e ⟨ty, arg⟩ = .ok { encNote e ty arg with lastType := ty } := by
       have a0 : ¬ ty = mds_REST := by simp [mds_REST, mds_TIE] at *; omega
       have a9 : ¬ ty = mds_LPB := by simp [mds_LPB, mds_SLR] at *; omega
       simp only [encEv, a9, a0, a2, h2, if_false, if_true, and_self, ne_eq, not_false_eq_true, false_and, or_true]
     obtain ⟨p1, p2, p3⟩ := encNote_frame e ty arg
     refine ⟨_, henc, (List.prefix_append _ _).trans p1, p2, p3, ?_⟩
-    intro seq base mj s O hp g
-    exact encNote_good g h1 h2 h3 h4 hp
+    intro seq base mj s O hS hp g
+    have hok : M.okTy ty = true := by
+      rcases hmn with ((x | x) | x) | x
+      · exact absurd h1 x
+      · exact absurd h2 x
+      · exact absurd h3 x
+      · exact x
+    exact encNote_good hS g h1 h2 hok h3 h4 hp
   · -- slur
     subst hslr
-    have hev : evTicks nS nM ⟨mds_SLR, arg⟩ = [Tk.cmd mds_SLR 0] := by simp [evTicks, mds_SLR, mds_REST, mds_TIE]
+    have hev : evTicks M nS nM ⟨mds_SLR, arg⟩ = [Tk.cmd mds_SLR 0] := by simp [evTicks, mds_SLR, mds_REST, mds_TIE]
     rw [hev]
     refine ⟨_, encEv_other (Nat.le_refl _) (encOther_slr nS nM e arg), List.prefix_append _ _, rfl, rfl, ?_⟩
-    intro seq base mj s O hp g
-    exact slr_good g rfl rfl rfl (by simp [mds_SLR]) hp
+    intro seq base mj s O hS hp g
+    exact slr_good hS g rfl rfl rfl (by simp [mds_SLR]) hp
   · -- commands
     simp only [isCmdOp, Bool.or_eq_true, Bool.and_eq_true, beq_iff_eq, bne_iff_ne] at hcmd
     rcases hcmd with ((((⟨hb, hdm⟩ | hw) | hins) | hpcm) | hpeg) | hmtab
@@ -174,7 +209,7 @@ theorem encEv_lin (nS nM : Nat) (e : Enc) (ev : MEv) (hv : linEv ev = true) :
           ¬ (mds_TIE ≤ x ∧ x < mds_SLR) ∧ ¬ x = mds_SLR ∧ isCmdOp x = true ∧ ¬ x = mds_MTAB ∧
           ¬ (x = mds_INS ∨ x = mds_PCM) ∧ ¬ x = mds_PEG ∧ wordArgOps.contains x = false := by decide
       obtain ⟨f1, f2, f3, f4, f5, f6, f7, f8, f9, f10⟩ := all ty (by simpa using hb) hdm
-      have hev : evTicks nS nM ⟨ty, arg⟩ = [Tk.cmd ty (arg % 256)] := by
+      have hev : evTicks M nS nM ⟨ty, arg⟩ = [Tk.cmd ty (arg % 256)] := by
         simp only [evTicks, cmdArg, f3, f4, f5, f6, f7, f8, f9, f10, if_false, if_true, Bool.false_eq_true]
       rw [hev]
       refine evOk_cmd1 f1 (encOther_byte nS nM e arg hb) f2 ?_
@@ -185,32 +220,46 @@ theorem encEv_lin (nS nM : Nat) (e : Enc) (ev : MEv) (hv : linEv ev = true) :
           ¬ (mds_TIE ≤ x ∧ x < mds_SLR) ∧ ¬ x = mds_SLR ∧ isCmdOp x = true ∧ ¬ x = mds_MTAB ∧
           ¬ (x = mds_INS ∨ x = mds_PCM) ∧ ¬ x = mds_PEG := by decide
       obtain ⟨f1, f2, f3, f4, f5, f6, f7, f8, f9⟩ := all ty (by simpa using hw)
-      have hev : evTicks nS nM ⟨ty, arg⟩ = [Tk.cmd ty (arg / 256 % 256 * 256 + arg % 256)] := by
+      have hev : evTicks M nS nM ⟨ty, arg⟩ = [Tk.cmd ty (arg / 256 % 256 * 256 + arg % 256)] := by
         have : arg % 65536 = arg / 256 % 256 * 256 + arg % 256 := by omega
         simp only [evTicks, cmdArg, f3, f4, f5, f6, f7, f8, f9, hw, if_false, if_true, this]
       rw [hev]
       exact evOk_cmd2 f1 (encOther_word nS nM e arg hw) f2
     · subst hins
-      have hev : evTicks nS nM ⟨mds_INS, arg⟩ = [Tk.cmd mds_INS ((nS + nM + arg) % 256)] := by
+      have hev : evTicks M nS nM ⟨mds_INS, arg⟩ = [Tk.cmd mds_INS ((nS + nM + arg) % 256)] := by
         simp [evTicks, cmdArg, isCmdOp, mds_INS, mds_REST, mds_TIE, mds_SLR, mds_MTAB]
       rw [hev]
       exact evOk_cmd1 (by decide) (encOther_ins nS nM e arg (.inl rfl)) (by decide) (fun h => absurd h (by decide))
     · subst hpcm
-      have hev : evTicks nS nM ⟨mds_PCM, arg⟩ = [Tk.cmd mds_PCM ((nS + nM + arg) % 256)] := by
+      have hev : evTicks M nS nM ⟨mds_PCM, arg⟩ = [Tk.cmd mds_PCM ((nS + nM + arg) % 256)] := by
         simp [evTicks, cmdArg, isCmdOp, mds_INS, mds_PCM, mds_REST, mds_TIE, mds_SLR, mds_MTAB]
       rw [hev]
       exact evOk_cmd1 (by decide) (encOther_ins nS nM e arg (.inr rfl)) (by decide) (fun h => absurd h (by decide))
     · subst hpeg
-      have hev : evTicks nS nM ⟨mds_PEG, arg⟩ =
+      have hev : evTicks M nS nM ⟨mds_PEG, arg⟩ =
           [Tk.cmd mds_PEG (if arg ≠ 0 then (nS + nM + arg) % 256 else 0)] := by
         simp [evTicks, cmdArg, isCmdOp, mds_INS, mds_PCM, mds_PEG, mds_REST, mds_TIE, mds_SLR, mds_MTAB]
       rw [hev]
       exact evOk_cmd1 (by decide) (encOther_peg nS nM e arg) (by decide) (fun h => absurd h (by decide))
     · subst hmtab
-      have hev : evTicks nS nM ⟨mds_MTAB, arg⟩ =
+      have hev : evTicks M nS nM ⟨mds_MTAB, arg⟩ =
           [Tk.cmd mds_MTAB (if arg ≠ 0 then (arg + nS) % 256 else 0)] := by
         simp [evTicks, cmdArg, isCmdOp, mds_REST, mds_TIE, mds_SLR, mds_MTAB]
       rw [hev]
       exact evOk_cmd1 (by decide) (encOther_mtab nS nM e arg) (by decide) (fun h => absurd h (by decide))
+
+/-- every event fits some mode -/
+theorem exists_mode_evOk (ev : MEv) : ∃ M : Mode, M.evOk ev = true := by
+  by_cases h : ev.type = mds_FLG
+  · refine ⟨⟨decide (ev.arg % 256 &&& 8 ≠ 0), fun _ => none⟩, ?_⟩
+    simp [Mode.evOk, drumSafe, h, mds_FLG, mds_SLR]
+  · exact ⟨Mode.plain, by simp [Mode.evOk, h]⟩
+
+/-- the encoder side of `encEv_lin`, which does not depend on the mode -/
+theorem encEv_lin_total (nS nM : Nat) (e : Enc) (ev : MEv) (hv : linEv ev = true) :
+    ∃ e', encEv nS nM e ev = .ok e' ∧ e.out <+: e'.out ∧ e'.breaks = e.breaks ∧ e'.segnoPos = e.segnoPos := by
+  obtain ⟨M, hm⟩ := exists_mode_evOk ev
+  obtain ⟨e', a, b, c, d, _⟩ := encEv_lin M nS nM e ev hv hm
+  exact ⟨e', a, b, c, d⟩
 
 end Ctrmml.Codec
